@@ -56,6 +56,8 @@ fn main() {
                 }
             } else {
                 eprintln!("UNEXPECTED {} :: {}", f.sig, f.msg);
+                let v = serde_json::json!({"case": c, "message": f.msg, "property": "C18", "seed": 0, "shrunk": false, "signature": f.sig, "sub": "pca", "tier": "handmade"});
+                std::fs::write(format!("{out}/unexpected-{iter}.json"), serde_json::to_string(&v).unwrap()).unwrap();
             }
         }
     }
